@@ -3428,8 +3428,11 @@ class DenseIntOrFPElementsAttr(
         Return whether or not this dense attribute is defined entirely
         by a single value (splat).
         """
-        values = self.get_values()
-        return values.count(values[0]) == len(values)
+        # Compare bit patterns rather than values: `0.0 == -0.0` but they are different
+        # elements, and a NaN is not equal to itself.
+        data = self.data.data
+        element_size = self.type.element_type.compile_time_size
+        return data == data[:element_size] * len(self)
 
     @staticmethod
     def parse_with_type(parser: AttrParser, type: Attribute) -> TypedAttribute:
